@@ -374,6 +374,12 @@ func (l *Logger) addPortBlockEntry(entry PortBlockLogEntry) {
 
 // Flush writes buffered entries to the output
 func (l *Logger) Flush() {
+	// Take the write lock before the batch: with the batch taken first, a second flush (the
+	// flushLoop ticker and an inline flush run concurrently) could take the next batch and
+	// write it first, putting a block's release and re-assignment out of order in the log.
+	l.mu.Lock()
+	defer l.mu.Unlock()
+
 	l.bufferMu.Lock()
 	entries := l.buffer
 	l.buffer = make([]NATLogEntry, 0, l.bufferSize)
@@ -383,9 +389,6 @@ func (l *Logger) Flush() {
 		return
 	}
 
-	l.mu.Lock()
-	defer l.mu.Unlock()
-
 	for _, entry := range entries {
 		line := l.formatEntry(entry)
 		l.writeWithRotation(line)
@@ -394,6 +397,10 @@ func (l *Logger) Flush() {
 
 // FlushPortBlocks writes buffered port block entries to the output
 func (l *Logger) FlushPortBlocks() {
+	// Write lock first, then the batch (see Flush): batches reach the log in the order taken.
+	l.mu.Lock()
+	defer l.mu.Unlock()
+
 	l.portBlockBufferMu.Lock()
 	entries := l.portBlockBuffer
 	l.portBlockBuffer = make([]PortBlockLogEntry, 0, cap(entries))
@@ -402,9 +409,6 @@ func (l *Logger) FlushPortBlocks() {
 	if len(entries) == 0 {
 		return
 	}
-
-	l.mu.Lock()
-	defer l.mu.Unlock()
 
 	for _, entry := range entries {
 		line := l.formatPortBlockEntry(entry)
